@@ -12,6 +12,12 @@ gs lessall <raw> <recs>      -> Less(i,j) for all i,j (row major, t/f)
 gs sort <raw> <recs>         -> perm:t <key projection of the ascending permutation>
 gs stable <raw> <recs>       -> input positions in the order sort.Stable leaves them
 gs swap <raw> <i> <j> <n>    -> len:<n> <positions after Swap(i,j)>
+gs layout <word>*            -> layout <word>*     how the package is laid out on disk (struct in the
+                             directive file or in another file, -in-file or $GOFILE, output name): the
+                             model's answers do not depend on it
+gs regen <field>*            -> as `def`: the struct's tags were EDITED to this definition and the
+                             generator ran again over its previous output; every later answer is the
+                             one for the CURRENT definition (the previous one is forgotten)
 recs = v,v,…;v,v,…  (value indices per field, declaration order), `-` = empty slice
 ```
 -/
@@ -78,19 +84,24 @@ def taggedIdx (st : St) (raw : String) : List Nat :=
 
 def showTuple (l : List Nat) : String := ",".intercalate (l.map toString)
 
+/-- `def` and `regen`: the state is a function of the definition given on THIS line only -/
+def define (fws : List String) : St × String :=
+  match fws.mapM parseField with
+  | none => ({}, "bad-op")
+  | some fvs =>
+    let fields := fvs.map (·.f)
+    match generate fields with
+    | .error e => ({ fields := fvs }, errClass e)
+    | .ok ss =>
+      let fds := match allSFDs fields with | .ok l => l | .error _ => []
+      let names := (ss.map (·.raw)).mergeSort (fun a b => decide (a ≤ b))
+      ({ fields := fvs, sorters := ss, fds := fds }, joinSp ("ok" :: names))
+
 def handle (st : St) (ws : List String) : St × String :=
   match ws with
-  | "def" :: fws =>
-    match fws.mapM parseField with
-    | none => ({}, "bad-op")
-    | some fvs =>
-      let fields := fvs.map (·.f)
-      match generate fields with
-      | .error e => ({ fields := fvs }, errClass e)
-      | .ok ss =>
-        let fds := match allSFDs fields with | .ok l => l | .error _ => []
-        let names := (ss.map (·.raw)).mergeSort (fun a b => decide (a ≤ b))
-        ({ fields := fvs, sorters := ss, fds := fds }, joinSp ("ok" :: names))
+  | "def" :: fws => define fws
+  | "regen" :: fws => define fws
+  | "layout" :: lws => (st, joinSp ("layout" :: lws))
   | op :: raw :: rest =>
     match findSorter raw st.sorters with
     | none => (st, "no-sorter")
